@@ -28,6 +28,8 @@ class C18(Prop):
     # translator tie: the thread-safe instantiation of the macro-stamped two-input cells (and the hand-duplicated
     # ShareObserverThreads of skip_until) is the SAME model cell as the local one (GenTie/*Threads.lean)
     tie_modules = {
+        "RxModel.GenTie.SubjectThreads": [],
+        "RxModel.GenTie.SubscriberThreads": [],
         "RxModel.GenTie.MergeThreads": ['merge'],
         "RxModel.GenTie.WiringMergeThreads": ['merge'],
         "RxModel.GenTie.ZipThreads": ['zip'],
